@@ -12,7 +12,8 @@ Step(e) ==
     \/ e.op = "post" /\ Post(e.ev, e.ty, e.cb, e.c)
     \/ e.op = "add" /\ AddHandler(e.h, e.ev, e.prio, e.hk, e.cond)
     \/ e.op = "remove" /\ RemoveHandler(e.h)
-    \/ e.op = "invoke" /\ cur = e.inst /\ (\E h \in snap : h.id = e.h /\ Invoke(h)) /\ act'.a = e.a /\ act'.c = e.c
+    \/ e.op = "replace" /\ ReplaceHandler(e.h, e.prio)
+    \/ e.op = "invoke" /\ cur = e.inst /\ (\E h \in snap : h.id = e.h /\ Invoke(h)) /\ act'.a = e.a /\ act'.c = e.c /\ act'.r = e.r
     \/ e.op = "ret" /\ Ret(e.val)
     \/ e.op = "callback" /\ Callback /\ act'.inst = e.inst /\ act'.a = e.a /\ act'.res = e.res
     \/ e.op = "cbend" /\ CbEnd
